@@ -51,12 +51,16 @@ def record(seed, ntraces, npts):
         ev = [{"op": "new", "kind": kind, "pos": pos, "r": r, "w": w, "h": h, "rot": rot}, _query(rng, obj, npts)]
         if not kind.startswith("wrap"):
             for _ in range(int(rng.randint(1, 4))):
-                ops = ["pos"] + ([] if kind == "circle" else ["rot"]) + (["rad"] if kind in ("hex", "sec3", "circle") else [])
+                ops = ["pos", "rel"] + ([] if kind == "circle" else ["rot"]) + (["rad"] if kind in ("hex", "sec3", "circle") else [])
                 op = ops[rng.randint(0, len(ops))]
                 if op == "pos":
                     v = _pos(rng)
                     obj.pos = base.pc(v)
                     ev.append({"op": "pos", "pos": v})
+                elif op == "rel":
+                    v = _pos(rng)
+                    obj.move_by_relative_coordinate(base.pc(v))
+                    ev.append({"op": "rel", "d": v})
                 elif op == "rot":
                     v = int(rng.randint(-24, 25)) * 30
                     obj.rotation = v
@@ -106,7 +110,7 @@ def classify(trace, idx):
     for ev in trace[1:idx]:
         if ev["op"] == "rot":
             rot = ev["rot"]
-        if ev["op"] == "pos":
+        if ev["op"] in ("pos", "rel"):
             moved = True
     if kind in ("rect", "square") and moved:
         return base.F_MOVE
@@ -174,6 +178,8 @@ def replay(ctx, data):
     for ev in trace[1:]:
         if ev["op"] == "pos":
             obj.pos = base.pc(ev["pos"])
+        elif ev["op"] == "rel":
+            obj.move_by_relative_coordinate(base.pc(ev["d"]))
         elif ev["op"] == "rot":
             obj.rotation = ev["rot"]
         elif ev["op"] == "rad":
